@@ -362,6 +362,7 @@ inductive Op
   | finish (r : ReqId)
   | connReady (c : ConnId)
   | connClose (c : ConnId)
+  | connFail (c : ConnId)     -- a released connection's `poll_ready` answers with an error while it still reports "open"
   | run                       -- run spawned tasks until none is runnable
   | tick (ms : Nat)
   | mark                      -- start of the drain phase (no effect on the state)
@@ -500,6 +501,16 @@ def step (s : State) : Op → State × Obs
   | .connClose c =>
     match s.conns c with
     | some _ => (wakeConn (setConn s c (fun k => { k with isOpen := false })) c, .done)
+    | none => (s, .noop)
+  -- a connection that has been released while still busy (it sits in a hand-back task) reports an error from
+  -- `poll_ready` - taken over by an upgrade, say - although its transport is open. For the pool this is the same event
+  -- as the peer closing it: the hand-back task ends without a connection that ever reported ready (`runWhenReady`).
+  | .connFail c =>
+    match s.conns c with
+    | some k =>
+      if k.isOpen && k.busy && (s.tasks.any fun (_, t) => match t with | .whenReady c' _ _ => c' == c | _ => false)
+      then (wakeConn (setConn s c (fun k => { k with isOpen := false })) c, .done)
+      else (s, .noop)
     | none => (s, .noop)
   | .tick ms => ({ s with now := s.now + ms }, .done)
   | .run => (runAll (2 * (s.tasks.length + s.runq.length) + 8) s, .done)
